@@ -172,6 +172,32 @@ def run(plan):
                                  "rate_select": 0x0048, "ieco": 0x00E3}[attr])
                 if not one_breeze(ac, f"after setting {attr}"):
                     return
+            elif kind == "recaps_setter":
+                # the capabilities are queried again (two pages this time, the second one slow); a setter is called
+                # from another task while the second page is awaited
+                recs = [(cid, bytes.fromhex(v)) for cid, v in profile_caps(p)]
+                late = [r for r in recs if r[0] in (0x0043, 0x0042, 0x0018, 0x0048, 0x00E3)] or recs[-1:]
+                early = [r for r in recs if r not in late]
+                saved = dev.caps_pages
+                dev.caps_pages = [(early, True), (late, False)]
+                dev.script = [{}, {"lat": op.get("lat", 0.5)}]
+                from simkit.world import capture
+                t = w.loop.create_task(capture(w, ac.get_capabilities()))
+                await asyncio.sleep(op.get("at", 0.25))
+                attr, val = op["attr"], op["value"]
+                s.set_attr(ac, attr, val)
+                if attr in ("breeze_away", "breeze_mild", "breezeless"):
+                    changed.add(breeze_id(p, attr.split("_")[-1] if attr != "breezeless" else "less"))
+                else:
+                    changed.add({"horizontal_swing_angle": 0x000A, "vertical_swing_angle": 0x0009,
+                                 "rate_select": 0x0048, "ieco": 0x00E3}[attr])
+                o = await t
+                dev.script = []
+                dev.caps_pages = saved
+                if o.kind != "ok":
+                    res.fail(f"get_capabilities raised {o.exc_type}", repr(o.exc))
+                    return
+                w.fire("setter_called_between_two_capability_pages")
             elif kind == "beep":
                 ac.beep = op["value"]
             elif kind == "dev_store":
@@ -379,6 +405,10 @@ def gen(j, rng):
         v = bytes([rng.choice(ANGLES)]) if pid in (0x0009, 0x000A) else bytes([rng.choice(RATES5 if p["rate"] == 5 else RATES2)]) \
             if pid == 0x0048 else bytes([rng.randint(1, 4)]) if pid == 0x0043 else bytes([rng.randint(0, 1)])
         ops += [{"op": "apply"}, {"op": "dev_store", "pid": pid, "value": v.hex()}]
+    if rng.random() < 0.12 and setters:
+        attr, vals = rng.choice(setters)
+        ops.insert(rng.randrange(0, len(ops) + 1), {"op": "recaps_setter", "attr": attr, "value": rng.choice(vals),
+                                                    "lat": rng.choice([0.3, 0.5, 1.0]), "at": rng.choice([0.05, 0.25])})
     if rng.random() < 0.12 and setters:
         # the unit refuses one property write; later writes are encoded as before
         attr, vals = rng.choice(setters)
